@@ -106,6 +106,7 @@ Definition dOp : dec op :=
   | 12 => ret OJobDeleting
   | 13 => ret OStaleJob
   | 14 => ret OFire
+  | 15 => let* t := dPos in let* i := dZ in let* race := dBool in ret (OResyncPod t i race)
   | _ => fail
   end.
 
